@@ -1,6 +1,7 @@
 package fault
 
 import (
+	"sort"
 	"sync"
 
 	"github.com/cockroachdb/errors"
@@ -13,35 +14,81 @@ import (
 // goroutine Pebble leaked after a failed Open uses the closed MANIFEST).
 type safeFS struct {
 	vfs.FS
+	// reg, if set, tracks the handles opened through this FS (one registry per
+	// DB instance): DB.Close must leave none open.
+	reg *handleReg
+}
+
+type handleReg struct {
+	mu   sync.Mutex
+	open map[*safeFile]string
+}
+
+func newHandleReg() *handleReg { return &handleReg{open: map[*safeFile]string{}} }
+
+func (h *handleReg) add(f *safeFile, name string) {
+	h.mu.Lock()
+	h.open[f] = name
+	h.mu.Unlock()
+}
+
+func (h *handleReg) del(f *safeFile) {
+	h.mu.Lock()
+	delete(h.open, f)
+	h.mu.Unlock()
+}
+
+// names lists the paths of the handles that are still open.
+func (h *handleReg) names() []string {
+	h.mu.Lock()
+	defer h.mu.Unlock()
+	var l []string
+	for _, n := range h.open {
+		l = append(l, n)
+	}
+	sort.Strings(l)
+	return l
 }
 
 var errFileClosed = errors.New("harness: file already closed")
 
-func (fs safeFS) wrap(f vfs.File, err error) (vfs.File, error) {
+func (fs safeFS) wrap(name string, f vfs.File, err error) (vfs.File, error) {
 	if err != nil {
 		return nil, err
 	}
-	return &safeFile{f: f}, nil
+	sf := &safeFile{f: f, reg: fs.reg}
+	if fs.reg != nil {
+		fs.reg.add(sf, name)
+	}
+	return sf, nil
 }
 
 func (fs safeFS) Create(name string, c vfs.DiskWriteCategory) (vfs.File, error) {
-	return fs.wrap(fs.FS.Create(name, c))
+	f, err := fs.FS.Create(name, c)
+	return fs.wrap(name, f, err)
 }
 func (fs safeFS) Open(name string, opts ...vfs.OpenOption) (vfs.File, error) {
-	return fs.wrap(fs.FS.Open(name, opts...))
+	f, err := fs.FS.Open(name, opts...)
+	return fs.wrap(name, f, err)
 }
 func (fs safeFS) OpenReadWrite(name string, c vfs.DiskWriteCategory, opts ...vfs.OpenOption) (vfs.File, error) {
-	return fs.wrap(fs.FS.OpenReadWrite(name, c, opts...))
+	f, err := fs.FS.OpenReadWrite(name, c, opts...)
+	return fs.wrap(name, f, err)
 }
-func (fs safeFS) OpenDir(name string) (vfs.File, error) { return fs.wrap(fs.FS.OpenDir(name)) }
+func (fs safeFS) OpenDir(name string) (vfs.File, error) {
+	f, err := fs.FS.OpenDir(name)
+	return fs.wrap(name, f, err)
+}
 func (fs safeFS) ReuseForWrite(oldname, newname string, c vfs.DiskWriteCategory) (vfs.File, error) {
-	return fs.wrap(fs.FS.ReuseForWrite(oldname, newname, c))
+	f, err := fs.FS.ReuseForWrite(oldname, newname, c)
+	return fs.wrap(newname, f, err)
 }
 
 type safeFile struct {
 	mu     sync.RWMutex
 	closed bool
 	f      vfs.File
+	reg    *handleReg
 }
 
 func (f *safeFile) Close() error {
@@ -51,6 +98,9 @@ func (f *safeFile) Close() error {
 		return errFileClosed
 	}
 	f.closed = true
+	if f.reg != nil {
+		f.reg.del(f)
+	}
 	return f.f.Close()
 }
 
